@@ -117,10 +117,12 @@ class NumPrinter:
         raise TranslateError(f"printer: unknown IR tag {tag}")
 
 
-COQ_TY = {'S': 'num', 'V': 'vec', 'M': 'mat', 'B': 'bool', 'Cols': '(list vec)'}
+COQ_TY = {'S': 'num', 'V': 'vec', 'M': 'mat', 'B': 'bool', 'Cols': '(list vec)', 'Mode': 'mode'}
 
 
 def coq_type(t):
+    if t == 'B3':
+        return '(bool * bool * bool)%type'
     if isinstance(t, tuple) and t[0] == 'T':
         return "(" + " * ".join(coq_type(x) for x in t[1:]) + ")%type"
     return COQ_TY[t]
@@ -156,6 +158,17 @@ class NumFunc:
 
     # ---------------------------------------------------------------- expressions
     def expr(self, node):
+        subst = self.spec.get('subst', {})
+        if subst and not isinstance(node, ast.Constant):
+            try:
+                text = ast.unparse(node)
+            except Exception:
+                text = None
+            if text in subst:
+                cname, t = subst[text]
+                if cname not in [n for n, _ in self.extra_params]:
+                    self.extra_params.append((cname, t))
+                return ('var', t, cname)
         if isinstance(node, ast.Constant):
             if isinstance(node.value, bool):
                 return ('bool', 'B', node.value)
@@ -170,6 +183,8 @@ class NumFunc:
             self.err(node, "unsupported constant")
         if isinstance(node, (ast.Name, ast.Attribute)):
             name = self.dotted(node)
+            if name in getattr(self, '_inline', {}):
+                return self._inline[name]
             if name in self.env:
                 cname, t = self.env[name]
                 if t == 'Angle':
@@ -236,7 +251,52 @@ class NumFunc:
         if isinstance(node, ast.Tuple):
             elts = [self.expr(e) for e in node.elts]
             return ('tuple', ('T',) + tuple(ty(e) for e in elts), elts)
+        if isinstance(node, ast.ListComp):
+            return self.zip3_comprehension(node)
         self.err(node, "unsupported expression")
+
+    def zip3_comprehension(self, node):
+        """[<bool expr in a, b> for a, b in zip(<vec>, <params>[k:])] -> three booleans"""
+        if len(node.generators) != 1 or node.generators[0].ifs or node.generators[0].is_async:
+            self.err(node, "unsupported comprehension")
+        gen = node.generators[0]
+        if not (isinstance(gen.target, ast.Tuple) and len(gen.target.elts) == 2
+                and all(isinstance(t, ast.Name) for t in gen.target.elts)):
+            self.err(node, "comprehension target is not a pair of names")
+        it = gen.iter
+        if not (isinstance(it, ast.Call) and self.dotted(it.func) == 'zip' and len(it.args) == 2):
+            self.err(node, "comprehension does not iterate over zip(a, b)")
+        vec = self.expr(it.args[0])
+        if ty(vec) != 'V':
+            self.err(node, "first zip argument is not a vector")
+        sl = it.args[1]
+        if not (isinstance(sl, ast.Subscript) and isinstance(sl.slice, ast.Slice) and sl.slice.upper is None
+                and sl.slice.step is None and isinstance(sl.slice.lower, ast.Constant)
+                and isinstance(sl.slice.lower.value, int)):
+            self.err(node, "second zip argument is not a tail slice params[k:]")
+        base = self.expr(sl.value)
+        k = sl.slice.lower.value
+        tb = ty(base)
+        if not (isinstance(tb, tuple) and tb[0] == 'T' and len(tb) - 1 >= k + 3 and all(x == 'S' for x in tb[1 + k:4 + k])):
+            self.err(node, "tail slice does not provide three scalars")
+        n = len(tb) - 1
+        outs = []
+        saved = dict(self.env)
+        for i in range(3):
+            self.env = dict(saved)
+            an, bn = gen.target.elts[0].id, gen.target.elts[1].id
+            ea = ('app', 'S', f'v{i}', [vec])
+            eb = ('app', 'S', f'tproj{n}_{k + i}', [base])
+            self.env[an] = (None, 'S')
+            self.env[bn] = (None, 'S')
+            self._inline = {an: ea, bn: eb}
+            e = self.expr(node.elt)
+            self._inline = {}
+            if ty(e) != 'B':
+                self.err(node, "comprehension element is not boolean")
+            outs.append(e)
+        self.env = saved
+        return ('tuple', 'B3', outs)
 
     def expr_const_ref(self, name, value):
         frac = Fraction(str(value))
@@ -274,6 +334,8 @@ class NumFunc:
         if isinstance(op, ast.Pow):
             if ta == 'S' and b[0] == 'const' and b[2].denominator == 1 and 1 <= b[2] <= 16:
                 return ('pow', 'S', a, int(b[2]))
+            if ta == 'S' and b[0] == 'const' and b[2] == Fraction(1, 2):
+                return ('app', 'S', 'nsqrt', [a])
             # opaque power (fractional exponent): becomes a parameter with a contract
             return self.opaque_call(node, 'pow')
         self.err(node, f"unsupported binary operation on types {ta},{tb}")
@@ -295,8 +357,15 @@ class NumFunc:
             for p in parts[1:]:
                 out = ('app', 'B', 'andb', [out, p])
             return out
-        a, b = self.expr(node.left), self.expr(node.comparators[0])
         op = type(node.ops[0])
+        rhs = node.comparators[0]
+        if isinstance(rhs, ast.Constant) and isinstance(rhs.value, str):
+            a = self.expr(node.left)
+            if ty(a) == 'Mode' and op in (ast.Eq, ast.NotEq) and rhs.value in ('in', 'out'):
+                e = ('app', 'B', 'mode_is_in' if rhs.value == 'in' else 'mode_is_out', [a])
+                return e if op is ast.Eq else ('app', 'B', 'negb', [e])
+            self.err(node, "unsupported string comparison")
+        a, b = self.expr(node.left), self.expr(node.comparators[0])
         if ty(a) == ty(b) == 'S' and op in self.CMP:
             return ('app', 'B', self.CMP[op], [a, b])
         if ty(a) == ty(b) == 'V' and vector_all and op in self.VCMP:
@@ -352,6 +421,19 @@ class NumFunc:
             if any(ty(c) != 'S' for c in comps):
                 self.err(node, "vector entry not scalar")
             return ('app', 'V', 'mkv', comps)
+        if fname in self.NORM and len(args) == 1 and isinstance(args[0], ast.Subscript) \
+                and isinstance(args[0].slice, ast.Slice) and args[0].slice.lower is None \
+                and isinstance(args[0].slice.upper, ast.Constant) and args[0].slice.upper.value == 2 \
+                and args[0].slice.step is None:
+            a = self.expr(args[0].value)
+            if ty(a) != 'V':
+                self.err(node, "norm of a slice of a non-vector")
+            return ('app', 'S', 'vnorm_xy', [a])
+        if fname == 'all' and len(args) == 1:
+            a = self.expr(args[0])
+            if ty(a) != 'B3':
+                self.err(node, "all() of something that is not a 3-element check list")
+            return ('app', 'B', 'all3', [a])
         if fname in self.NORM and len(args) == 1:
             a = self.expr(args[0])
             if ty(a) != 'V':
@@ -435,9 +517,16 @@ class NumFunc:
         st, rest = stmts[0], stmts[1:]
         if isinstance(st, ast.Expr) and isinstance(st.value, ast.Constant) and isinstance(st.value.value, str):
             return self.block(rest, cont)
+        for prefix in self.spec.get('skip', ()):
+            if ast.unparse(st).startswith(prefix):
+                return self.block(rest, cont)
         if isinstance(st, ast.Return):
             if st.value is None:
                 self.err(st, "bare return")
+            if 'ret_elt' in self.spec:
+                if not isinstance(st.value, ast.Tuple):
+                    self.err(st, "ret_elt given but the function does not return a tuple literal")
+                return self.expr(st.value.elts[self.spec['ret_elt']])
             return self.expr(st.value)
         if isinstance(st, ast.Assign):
             if len(st.targets) != 1:
@@ -525,7 +614,18 @@ class NumFunc:
             raise TranslateError(f"{self.src.relpath}: parameters of {self.spec['func']} are {actual}, "
                                  f"signature table says {declared}")
         params = self.setup_params()
-        body = self.block(list(node.body))
+        stmts = list(node.body)
+        if 'after' in self.spec:
+            idx = [i for i, st in enumerate(stmts) if ast.unparse(st).startswith(self.spec['after'])]
+            if len(idx) != 1:
+                raise TranslateError(f"{self.src.relpath}: expected exactly one statement starting with "
+                                     f"{self.spec['after']!r} in {self.spec['func']}, found {len(idx)}")
+            stmts = stmts[idx[0] + 1:]
+            for pyname, t in self.spec.get('tail_params', ()):
+                cname = pyname.replace('.', '_')
+                self.env[pyname] = (cname, t)
+                params.append((cname, t))
+        body = self.block(stmts)
         return node, params, body
 
     def translate_assign_rhs(self):
@@ -596,14 +696,13 @@ def emit_numeric(repo, out, specs, errors):
         'R': "From Coq Require Import Reals List Bool.\nFrom PV Require Import RNum.\nImport ListNotations.\nLocal Open Scope R_scope.\n",
         'F': "From Coq Require Import PrimFloat List Bool.\nFrom PV Require Import FNum.\nImport ListNotations.\nLocal Open Scope float_scope.\n",
     }
-    proj = ("Definition tproj2_0 {A B} (t : A * B) := fst t.\nDefinition tproj2_1 {A B} (t : A * B) := snd t.\n"
-            "Definition tproj3_0 {A B C} (t : A * B * C) := fst (fst t).\n"
-            "Definition tproj3_1 {A B C} (t : A * B * C) := snd (fst t).\n"
-            "Definition tproj3_2 {A B C} (t : A * B * C) := snd t.\n")
+    proj = ""
     files = {}
+    imports = sorted({imp for spec in specs for imp in spec.get('imports', ())})
     for mode in 'RF':
+        imp = "".join(f"From PV Require Import {i}_{mode}.\n" for i in imports)
         files[f"{out}_{mode}.v"] = ("(* GENERATED by gen/translate.py from the current repo source -- do not edit *)\n"
-                                    + header[mode] + proj + "\n" + "\n".join(chunks[mode]))
+                                    + header[mode] + "From PV Require Import Mode Tproj.\n" + imp + proj + "\n" + "\n".join(chunks[mode]))
     return files, stamps
 
 
@@ -725,6 +824,8 @@ def run(repo, outdir, only=None):
     sys.path.insert(0, here)
     import sigs  # noqa
     import extractors  # noqa  (registers the structural extractors)
+    if 'translate' in sys.modules and sys.modules['translate'].EXTRACTORS is not EXTRACTORS:
+        EXTRACTORS.update(sys.modules['translate'].EXTRACTORS)
     errors, stamps, written = [], [], []
     os.makedirs(outdir, exist_ok=True)
     for out, group in sigs.NUMERIC.items():
